@@ -531,6 +531,7 @@ static StrSet STR;
 static int g_modes = 3;            // bit0: XML Schema mode, bit1: XPath flavour
 static std::vector<std::string> g_xopts = {"X", "XF", "XH", "XFH"}, g_popts = {"", "F", "H", "FH"};
 static bool g_crossref = true;
+static int g_count_from = 0;
 
 static std::string ast_json(int t) { return "\"pattern\":" + jstr(a16(render(t))) + ",\"ast_nodes\":" + std::to_string(POOL[t].size); }
 static std::vector<std::string> split(const std::string& s) {
@@ -594,55 +595,45 @@ static bool nested_unbounded_nullable(int t) {
     if (n.op == N_QUANT && QUANTS[n.arg].m < 0 && nullable_ast(n.l) && has_unbounded(n.l)) return true;
     return nested_unbounded_nullable(n.l) || (n.r >= 0 && nested_unbounded_nullable(n.r));
 }
-struct Shm { volatile int32_t opt, str; int8_t v[1]; };
-static Shm* g_shm = nullptr; static size_t g_shm_size = 0;
-static void exec_matches(const U16& pat, const std::vector<std::string>& opts, size_t from, size_t NS, int8_t* v, volatile int32_t* cur_opt, volatile int32_t* cur_str) {
-    for (size_t oi = from; oi < opts.size(); oi++) {
+// In-process guard: SIGSEGV (stack exhaustion) during a guarded matches() call is caught on an alternate stack and control returns
+// to the call site with siglongjmp; the abandoned frames only leak a few small blocks.  Outside guarded calls the previous (sanitizer)
+// handler runs, so every other fault is still reported normally and kills the worker.
+#include <setjmp.h>
+static sigjmp_buf g_jmp;
+static volatile sig_atomic_t g_armed = 0;
+static struct sigaction g_old_segv;
+static void on_guard_segv(int sig, siginfo_t* si, void* uc) {
+    if (g_armed) { g_armed = 0; siglongjmp(g_jmp, 1); }
+    if (g_old_segv.sa_flags & SA_SIGINFO) { if (g_old_segv.sa_sigaction) g_old_segv.sa_sigaction(sig, si, uc); }
+    else if (g_old_segv.sa_handler != SIG_DFL && g_old_segv.sa_handler != SIG_IGN) g_old_segv.sa_handler(sig);
+    signal(sig, SIG_DFL); raise(sig);
+}
+static void install_guard() {
+    static char* altstack = nullptr;
+    if (!altstack) altstack = (char*)malloc(1 << 17);
+    stack_t ss; ss.ss_sp = altstack; ss.ss_size = 1 << 17; ss.ss_flags = 0; sigaltstack(&ss, nullptr);
+    struct sigaction sa; memset(&sa, 0, sizeof sa);
+    sa.sa_sigaction = on_guard_segv; sa.sa_flags = SA_ONSTACK | SA_SIGINFO | SA_NODEFER;
+    sigaction(SIGSEGV, &sa, &g_old_segv);
+    struct rlimit rl;
+    if (getrlimit(RLIMIT_STACK, &rl) == 0) { rl.rlim_cur = 1u << 20; setrlimit(RLIMIT_STACK, &rl); }  // exhaust quickly; nothing legitimate here is deep
+}
+static int xmatch_guarded(const RE* re, const U16& s) {
+    if (sigsetjmp(g_jmp, 1) == 0) { g_armed = 1; int v = xmatch(re, s, nullptr, nullptr); g_armed = 0; return v; }
+    return V_CRASH;
+}
+static void exec_matches(Ctx& c, const U16& pat, const std::vector<std::string>& opts, size_t NS, int8_t* v, bool guarded) {
+    for (size_t oi = 0; oi < opts.size(); oi++) {
         Compiled C;
         compile(C, pat, opts[oi].c_str());
         if (C.exc != EX_NONE) { memset(v + oi * NS, V_COMPILE_FAILED, NS); continue; }
-        for (size_t i = 0; i < NS; i++) {
-            *cur_opt = (int32_t)oi; *cur_str = (int32_t)i;
-            v[oi * NS + i] = (int8_t)xmatch(C.re, STR.s[i], nullptr, nullptr);
+        if (!guarded) for (size_t i = 0; i < NS; i++) v[oi * NS + i] = (int8_t)xmatch(C.re, STR.s[i], nullptr, nullptr);
+        else for (size_t i = 0; i < NS; i++) {
+            int r = xmatch_guarded(C.re, STR.s[i]);
+            v[oi * NS + i] = (int8_t)r;
+            if (r == V_CRASH) { c.count("guarded:stack_exhaustions_caught"); break; }  // one witness per (AST, options); the remaining strings stay V_NOT_RUN
         }
     }
-}
-static void on_child_segv(int) { _exit(77); }
-static void exec_matches_guarded(Ctx& c, const U16& pat, const std::vector<std::string>& opts, size_t NS, std::vector<int8_t>& out) {
-    size_t need = sizeof(Shm) + opts.size() * NS;
-    if (!g_shm || g_shm_size < need) {
-        if (g_shm) munmap((void*)g_shm, g_shm_size);
-        g_shm_size = need;
-        g_shm = (Shm*)mmap(nullptr, g_shm_size, PROT_READ | PROT_WRITE, MAP_SHARED | MAP_ANONYMOUS, -1, 0);
-    }
-    memset((void*)g_shm->v, V_NOT_RUN, opts.size() * NS);
-    size_t from = 0;
-    while (from < opts.size()) {
-        g_shm->opt = (int32_t)from; g_shm->str = -1;
-        fflush(nullptr);
-        pid_t p = fork();
-        if (p == 0) {
-            // die fast and silently on stack exhaustion: small stack limit, own SIGSEGV handler on an alternate stack
-            static char altstack[1 << 16];
-            stack_t ss; ss.ss_sp = altstack; ss.ss_size = sizeof altstack; ss.ss_flags = 0; sigaltstack(&ss, nullptr);
-            struct sigaction sa; memset(&sa, 0, sizeof sa); sa.sa_handler = on_child_segv; sa.sa_flags = SA_ONSTACK; sigaction(SIGSEGV, &sa, nullptr); sigaction(SIGBUS, &sa, nullptr);
-            struct rlimit rl; rl.rlim_cur = rl.rlim_max = 1 << 20; setrlimit(RLIMIT_STACK, &rl);
-            struct itimerval it; memset(&it, 0, sizeof it); setitimer(ITIMER_REAL, &it, nullptr);
-            signal(SIGALRM, SIG_DFL); alarm(30);
-            exec_matches(pat, opts, from, NS, (int8_t*)g_shm->v, &g_shm->opt, &g_shm->str);
-            _exit(0);
-        }
-        int st = 0;
-        while (waitpid(p, &st, 0) < 0 && errno == EINTR) {}
-        c.count("guarded:child_processes");
-        if (WIFEXITED(st) && WEXITSTATUS(st) == 0) break;
-        int oi = g_shm->opt, si = g_shm->str;
-        if (si < 0) { memset((void*)(g_shm->v + (size_t)oi * NS), V_CRASH, NS); }  // died while compiling
-        else g_shm->v[(size_t)oi * NS + si] = V_CRASH;
-        c.count(WIFSIGNALED(st) && WTERMSIG(st) == SIGALRM ? "guarded:child_timeouts" : "guarded:child_crashes");
-        from = (size_t)oi + 1;
-    }
-    out.assign((int8_t*)g_shm->v, (int8_t*)g_shm->v + opts.size() * NS);
 }
 
 static void run_ast(uint64_t idx, Ctx& c) {
@@ -668,8 +659,9 @@ static void run_ast(uint64_t idx, Ctx& c) {
     }
     size_t accX = 0, accS = 0;
     for (size_t i = 0; i < NS; i++) { accX += refX[i]; accS += refS[i]; }
-    if (g_modes & 1) { c.count("ref_accept_anchored", accX); c.count("ref_reject_anchored", NS - accX); if (accX > 0 && accX < NS) c.count("ast_nontrivial_anchored"); }
-    if (g_modes & 2) { c.count("ref_accept_search", accS); c.count("ref_reject_search", NS - accS); if (accS > 0 && accS < NS) c.count("ast_nontrivial_search"); }
+    bool fresh = POOL[root].size >= g_count_from;  // smaller ASTs of this run are already counted by another run of the same tier (see xv/c11.py)
+    if (g_modes & 1) { c.count("ref_accept_anchored", accX); c.count("ref_reject_anchored", NS - accX); if (fresh && accX > 0 && accX < NS) c.count("ast_nontrivial_anchored"); }
+    if (g_modes & 2) { c.count("ref_accept_search", accS); c.count("ref_reject_search", NS - accS); if (fresh && accS > 0 && accS < NS) c.count("ast_nontrivial_search"); }
 
     // ---- execute on the library
     std::vector<std::string> allopts; std::vector<int> modeOf;
@@ -677,8 +669,8 @@ static void run_ast(uint64_t idx, Ctx& c) {
         if (g_modes >> mode & 1) for (auto& o : (mode == 0 ? g_xopts : g_popts)) { allopts.push_back(o); modeOf.push_back(mode); }
     std::vector<int8_t> V(allopts.size() * NS, V_NOT_RUN);
     bool guarded = risky_ast(root);
-    if (guarded) { c.count("guarded:asts"); exec_matches_guarded(c, pat, allopts, NS, V); }
-    else { volatile int32_t a = 0, b = 0; exec_matches(pat, allopts, 0, NS, V.data(), &a, &b); }
+    if (guarded) c.count("guarded:asts");
+    exec_matches(c, pat, allopts, NS, V.data(), guarded);
 
     // ---- compare
     for (int mode = 0; mode < 2; mode++) {
@@ -1078,9 +1070,24 @@ static const CatEntry CATALOGUE[] = {
     {'V', 2, "a{2}?", "aa", "a"}, {'V', 2, "^$", "", "a"}, {'V', 2, "ab", "cabc", "acb"}, {'V', 2, "a\\.b", "ca.bc", "caxbc"}, {'V', 2, "[a-c-[b]]+", "xxa", "xbx"},
 };
 static const int N_CAT = sizeof(CATALOGUE) / sizeof(CATALOGUE[0]);
+// catalogue entries on which the unchanged library is known to misbehave (genuine defects, docs/c11.md): their violations carry the
+// kind "known-defect:<name>" so that they can be told apart from new findings; they are never skipped.
+struct CatDefect { const char* pat; int mode; /* 0 xsd, 1 xpath, -1 both */ const char* name; };
+static const CatDefect CAT_DEFECTS[] = {
+    {"a{99999999999}", -1, "quantifier-overflow-ub"}, {"a{2147483648}", -1, "quantifier-overflow-ub"}, {"a{1,99999999999}", -1, "quantifier-overflow-ub"},
+    {"a{4294967297}", -1, "quantifier-overflow-ub"},
+    {"\x02" "a", -1, "lone-surrogate-throws-enum"}, {"[\x02" "a]", -1, "lone-surrogate-throws-enum"}, {"[a-\x02]", -1, "lone-surrogate-throws-enum"}, {"\x02\x02", -1, "lone-surrogate-throws-enum"},
+    {"\\1", 0, "xsd-backreference-runtimeexception"}, {"(a)\\1", 0, "xsd-backreference-runtimeexception"}, {"(a)\\2", 0, "xsd-backreference-runtimeexception"},
+    {"\\0", 0, "xsd-backreference-runtimeexception"}, {"\\0", 1, "backreference-zero-accepted"},
+    {"\\p{", -1, "unterminated-category-wrong-exception"},
+};
+static const char* cat_defect(const char* pat, int mode) {
+    for (auto& d : CAT_DEFECTS) if (strcmp(d.pat, pat) == 0 && (d.mode < 0 || d.mode == mode)) return d.name;
+    return nullptr;
+}
 static std::vector<int> BADQ;
 // compile (and run four matches) in a forked child with stderr captured; returns the wait status (0 = terminated normally)
-static int probe_in_child(const U16& pat, const std::string& opts, std::string& log) {
+static int probe_in_child(const U16& pat, const std::vector<std::string>& optlist, std::string& log) {
     int fds[2];
     if (pipe(fds) != 0) return 0;
     fflush(nullptr);
@@ -1088,9 +1095,11 @@ static int probe_in_child(const U16& pat, const std::string& opts, std::string& 
     if (p == 0) {
         close(fds[0]); dup2(fds[1], 2); close(fds[1]);
         alarm(15);
-        Compiled C;
-        compile(C, pat, opts.c_str());
-        if (C.re) for (const char* s : {"", "a", "aa", "b"}) xmatch(C.re, w16(s), nullptr, nullptr);
+        for (auto& opts : optlist) {
+            Compiled C;
+            compile(C, pat, opts.c_str());
+            if (C.re) for (const char* s : {"", "a", "aa", "b"}) xmatch(C.re, w16(s), nullptr, nullptr);
+        }
         _exit(0);
     }
     close(fds[1]);
@@ -1107,6 +1116,7 @@ static int probe_in_child(const U16& pat, const std::string& opts, std::string& 
 static void run_malformed(uint64_t idx, Ctx& c) {
     if (idx < (uint64_t)N_CAT) {
         const CatEntry& e = CATALOGUE[idx];
+        int both_status = 0;
         for (int mode = 0; mode < 2; mode++) {
             if (!(e.modes >> mode & 1)) continue;
             const std::string mname = mode == 0 ? "xsd" : "xpath";
@@ -1114,13 +1124,21 @@ static void run_malformed(uint64_t idx, Ctx& c) {
             U16 pat = cat16(e.pat);
             if (e.cls == 'O') { opts = e.pat; if (mode == 0 && !has_opt(opts, 'X')) opts = "X" + opts; pat = w16("a"); }
             std::string desc = "\"pattern\":" + jstr(a16(pat)) + ",\"options\":" + jstr(opts) + ",\"class\":" + jstr(std::string(1, e.cls));
+            const char* kdname = cat_defect(e.pat, mode);
+            auto viol = [&](const std::string& kind, const std::string& detail) {
+                if (kdname) { c.count(std::string("known_defect:") + kdname); c.violation(std::string("known-defect:") + kdname, "\"observed_as\":" + jstr(kind) + "," + detail); }
+                else c.violation(kind, detail);
+            };
             if (e.cls == 'N') {
                 // probe in a forked child first: a sanitizer abort / signal must be attributed to this entry without killing the worker
+                // (one child for both dialects; only if that one dies, one child per dialect)
                 std::string log;
-                int st = probe_in_child(pat, opts, log);
+                int st = 0;
+                if (mode == 0) both_status = probe_in_child(pat, {"X", ""}, log);
+                if (both_status != 0) { log.clear(); st = probe_in_child(pat, {opts}, log); }
                 if (st != 0) {
                     c.count("catalogue:N:" + mname + ":abnormal-termination");
-                    c.violation("compile-crash-" + mname, desc + ",\"how\":" + jstr(WIFSIGNALED(st) ? "signal " + std::to_string(WTERMSIG(st)) : "exit " + std::to_string(WEXITSTATUS(st))) +
+                    viol("compile-crash-" + mname, desc + ",\"how\":" + jstr(WIFSIGNALED(st) ? "signal " + std::to_string(WTERMSIG(st)) : "exit " + std::to_string(WEXITSTATUS(st))) +
                                                               ",\"log\":" + jstr(log.substr(0, 700)));
                     continue;
                 }
@@ -1129,18 +1147,18 @@ static void run_malformed(uint64_t idx, Ctx& c) {
             compile(C, pat, opts.c_str());
             c.count(std::string("catalogue:") + e.cls + ":" + mname + ":" + EXNAME[C.exc]);
             if (e.cls == 'M' || e.cls == 'O') {
-                if (C.exc == EX_NONE) c.violation("malformed-accepted-" + mname, desc);
-                else if (C.exc != EX_PARSE) c.violation("malformed-wrong-exception-" + mname, desc + ",\"exception\":" + jstr(EXNAME[C.exc]) + ",\"detail\":" + jstr(C.detail));
+                if (C.exc == EX_NONE) viol("malformed-accepted-" + mname, desc);
+                else if (C.exc != EX_PARSE) viol("malformed-wrong-exception-" + mname, desc + ",\"exception\":" + jstr(EXNAME[C.exc]) + ",\"detail\":" + jstr(C.detail));
             } else if (e.cls == 'N') {
-                if (C.exc != EX_NONE && C.exc != EX_PARSE) c.violation("compile-foreign-exception-" + mname, desc + ",\"exception\":" + jstr(EXNAME[C.exc]) + ",\"detail\":" + jstr(C.detail));
-                if (C.exc == EX_NONE) { std::string det; for (const char* s : {"", "a", "aa", "b"}) if (xmatch(C.re, w16(s), nullptr, &det) < 0) c.violation("match-exception-" + mname, desc + ",\"string\":" + jstr(s) + ",\"detail\":" + jstr(det)); }
+                if (C.exc != EX_NONE && C.exc != EX_PARSE) viol("compile-foreign-exception-" + mname, desc + ",\"exception\":" + jstr(EXNAME[C.exc]) + ",\"detail\":" + jstr(C.detail));
+                if (C.exc == EX_NONE) { std::string det; for (const char* s : {"", "a", "aa", "b"}) if (xmatch(C.re, w16(s), nullptr, &det) < 0) viol("match-exception-" + mname, desc + ",\"string\":" + jstr(s) + ",\"detail\":" + jstr(det)); }
             } else {
-                if (C.exc != EX_NONE) { c.violation("valid-pattern-rejected-" + mname, desc + ",\"exception\":" + jstr(EXNAME[C.exc]) + ",\"detail\":" + jstr(C.detail)); continue; }
+                if (C.exc != EX_NONE) { viol("valid-pattern-rejected-" + mname, desc + ",\"exception\":" + jstr(EXNAME[C.exc]) + ",\"detail\":" + jstr(C.detail)); continue; }
                 std::string det;
                 int va = xmatch(C.re, cat16(e.acc), nullptr, &det), vr = xmatch(C.re, cat16(e.rej), nullptr, &det);
                 c.count("catalogue:valid_examples_checked", 2);
-                if (va != 1) c.violation("verdict-" + mname, desc + ",\"string\":" + jstr(a16(cat16(e.acc))) + ",\"expected\":true,\"observed\":" + std::to_string(va));
-                if (vr != 0) c.violation("verdict-" + mname, desc + ",\"string\":" + jstr(a16(cat16(e.rej))) + ",\"expected\":false,\"observed\":" + std::to_string(vr));
+                if (va != 1) viol("verdict-" + mname, desc + ",\"string\":" + jstr(a16(cat16(e.acc))) + ",\"expected\":true,\"observed\":" + std::to_string(va));
+                if (vr != 0) viol("verdict-" + mname, desc + ",\"string\":" + jstr(a16(cat16(e.rej))) + ",\"expected\":false,\"observed\":" + std::to_string(vr));
             }
         }
         return;
@@ -1159,6 +1177,7 @@ static void run_malformed(uint64_t idx, Ctx& c) {
 }
 
 // =========================================================================================== space: known (strict witnesses of KNOWN_DEFECTS)
+static void on_child_segv(int) { _exit(77); }
 static void run_known(uint64_t idx, Ctx& c) {
     const KnownDefect& k = KNOWN_DEFECTS[idx];
     std::string desc = "\"defect\":" + jstr(k.name) + ",\"pattern\":" + jstr(a16(cat16(k.pattern))) + ",\"options\":" + jstr(k.options) + ",\"string\":" + jstr(a16(cat16(k.string))) +
@@ -1279,6 +1298,7 @@ int main(int argc, char** argv) {
     std::string space = a.str("space", "ast");
     g_modes = (int)a.num("modes", 3);
     g_crossref = a.num("crossref", 1) != 0;
+    g_count_from = (int)a.num("count-from-nodes", 0);
     if (a.has("xopts")) g_xopts = split(a.str("xopts"));
     if (a.has("popts")) g_popts = split(a.str("popts"));
     if (a.has("fh")) g_fh = split(a.str("fh"));
@@ -1324,5 +1344,7 @@ int main(int argc, char** argv) {
         fprintf(stderr, "unknown space\n");
         return 2;
     }
+    R.worker_init = install_guard;
+    if (a.has("only")) install_guard();
     return R.main_tail(a);
 }
